@@ -187,6 +187,11 @@ class Cases:
             return e
         elif "n" in el:
             n = el["n"]
+            if e[0] == "upd":
+                hit = [ov for (fn, ov) in e[2] if fn == n]
+                if hit:
+                    return hit[-1]
+                e = e[1]
             if e[0] == "agg":
                 names = e[4] if len(e) > 4 and e[4] else tuple(str(i) for i in range(len(e[3])))
                 if n in names and names.index(n) < len(e[3]):
@@ -605,6 +610,15 @@ class Cases:
         if lhs["p"][0] != "*" and root[0] == "agg":
             st["loc"][lhs["l"]] = self._update(root, lhs["p"], v)
             return
+        if lhs["p"][0] != "*" and len(lhs["p"]) == 1 and isinstance(lhs["p"][0], dict) and "n" in lhs["p"][0] and not (1 <= lhs["l"] <= self.body.arg_count and lhs["l"] not in st["loc"]) \
+                and root[0] in ("field", "upd", "deref", "index", "call", "as"):
+            # a field of a local that holds a *copy* of something (`let mut r = m.rights; r.f = v;`): the copy changes, not
+            # what it was copied from; the change reaches a place only when the local is stored there
+            base, ovs = (root[1], root[2]) if root[0] == "upd" else (root, ())
+            n = lhs["p"][0]["n"]
+            st["loc"][lhs["l"]] = ("upd", base, tuple(x for x in ovs if x[0] != n) + ((n, v),))
+            path.events.append(("store", bi, "%s.%s" % (self.body.local_name(lhs["l"]), n), v))
+            return
         # the place itself (not its current value): inputs and remembered stores do not apply along the way, except that
         # a reference held in a local is followed to what it points to
         e = root
@@ -618,6 +632,12 @@ class Cases:
         for k in [k for k in st["mem"] if k != t and k.startswith(t + ".")]:
             del st["mem"][k]
         path.events.append(("store", bi, t, v))
+        if v[0] == "upd":
+            # a copy with some fields changed is written back: those fields of the place now hold the changed values
+            st["mem"][t] = v[1]
+            for n, ov in v[2]:
+                st["mem"]["%s.%s" % (t, n)] = ov
+                path.events.append(("store", bi, "%s.%s" % (t, n), ov))
 
     def _update(self, agg, proj, v):
         el = proj[0]
